@@ -205,8 +205,14 @@ def check_iteration(par):
     from eudoxia.utils import Priority
     p = Pipeline("w", Priority.BATCH_PIPELINE)
     ops = []
+    scratch = []
     for k, pi in enumerate(par):
-        ops.append(p.new_operator([ops[j] for j in pi] or None))
+        if pi and (k + len(par)) % 2:
+            scratch[:] = [ops[j] for j in pi]          # parents handed over in a list the caller reuses afterwards
+            ops.append(p.new_operator(scratch))
+            scratch[:] = []
+        else:
+            ops.append(p.new_operator([ops[j] for j in pi] or None))
         _check_order(par, ops, list(p.values), "after adding node %d" % k)
     _check_order(par, ops, list(p.values), "second iteration")
     it = iter(p.values)
